@@ -5,6 +5,7 @@ import HdVerif.Generated.T6g
 import HdVerif.Generated.T6i
 import HdVerif.Generated.T6p
 import HdVerif.Generated.T6q
+import HdVerif.Generated.T6r
 /-! # C06  Pixel transforms follow the DICOM pipeline and the tri-state flags
 
 Property theorems only.  Definitions under `HdVerif.Gen` are regenerated from /repo's current source on
@@ -1039,6 +1040,54 @@ example : outputRules false false false false true true false "u" "u" false "MON
 example : outputRules false false false false true false false "u" "u" false "MONOCHROME" = .ok (false, true, true, true, false, false) := by decide
 example : ∃ e, outputRules false false false false false false true "u" "u" false "MONOCHROME" = .error e :=
   window_needs_float_output false false false false false false "u" "u" false "MONOCHROME" (by decide)
+
+/-! ## Type and range of the stored values (regenerated T6r)
+
+`inputType` is the block of `__init__` that deduces the numpy type and the range of the stored values from BitsAllocated,
+BitsStored and PixelRepresentation; the range is what the presentation inversion reflects about (`foldInvert`, `imin` / `imax` of
+the model's `Params`) and what `_check_rescale_dtype` tests (`rescale_dtype_sound`).  Tie C: L2 comparison with the
+`input_dtype` of real transform objects on the `narrow` grid; the pipeline oracle computes its own range. -/
+
+/-- integer pixels (everything but float parametric maps): the range of stored values is the two's-complement range of
+    BitsStored bits for signed pixels and [0, 2^BitsStored - 1] for unsigned ones -/
+theorem input_range_spec (pm : Bool) (ba rep bs : Int) (h : ¬ (pm = true ∧ 16 < ba)) :
+    ∃ code, inputType pm ba rep bs = .ok (code, true,
+      if rep = 1 then -(2 ^ (bs - 1).toNat) else 0,
+      if rep = 1 then 2 ^ (bs - 1).toNat - 1 else 2 ^ bs.toNat - 1) := by
+  unfold inputType
+  have hc : (pm && decide (ba > 16)) = false := by
+    cases pm
+    · rfl
+    · simp at h ⊢; omega
+  simp only [hc, Bool.false_eq_true, ↓reduceIte]
+  by_cases hr : rep = 1
+  · simp [hr]
+  · have : (rep == 1) = false := by simpa using hr
+    simp [hr, this]
+
+/-- the stored type: signed 8 / 16 / 32 bits for PixelRepresentation 1, unsigned 8 (also for bit-packed data) / 16 / 32 otherwise,
+    float 32 / 64 for parametric maps with more than 16 bits allocated -/
+theorem input_type_table :
+    (∀ bs, (inputType false 8 1 bs).map (·.1) = .ok 108) ∧ (∀ bs, (inputType false 16 1 bs).map (·.1) = .ok 116) ∧
+    (∀ bs, (inputType false 32 1 bs).map (·.1) = .ok 132) ∧
+    (∀ bs, (inputType false 1 0 bs).map (·.1) = .ok 8) ∧ (∀ bs, (inputType false 8 0 bs).map (·.1) = .ok 8) ∧
+    (∀ bs, (inputType false 16 0 bs).map (·.1) = .ok 16) ∧ (∀ bs, (inputType false 32 0 bs).map (·.1) = .ok 32) ∧
+    (∀ rep bs, inputType true 32 rep bs = .ok (232, false, 0, 0)) ∧ (∀ rep bs, inputType true 64 rep bs = .ok (264, false, 0, 0)) := by
+  refine ⟨?_, ?_, ?_, ?_, ?_, ?_, ?_, ?_, ?_⟩ <;> intros <;> simp [inputType, Except.map]
+
+/-- with 1 <= BitsStored <= BitsAllocated the range of stored values lies inside the stored type -/
+theorem input_range_fits_type (ba bs : Nat) (h1 : 1 ≤ bs) (h2 : bs ≤ ba) :
+    (-(2 : Int) ^ (ba - 1) ≤ -(2 ^ (((bs : Int) - 1).toNat)) ∧ (2 : Int) ^ (((bs : Int) - 1).toNat) - 1 ≤ 2 ^ (ba - 1) - 1) ∧
+    ((2 : Int) ^ ((bs : Int).toNat) - 1 ≤ 2 ^ ba - 1) := by
+  have e1 : ((bs : Int) - 1).toNat = bs - 1 := by omega
+  have e2 : ((bs : Int)).toNat = bs := by omega
+  rw [e1, e2]
+  have p1 : (2 : Int) ^ (bs - 1) ≤ 2 ^ (ba - 1) := by
+    exact_mod_cast Nat.pow_le_pow_right (by norm_num) (by omega : bs - 1 ≤ ba - 1)
+  have p2 : (2 : Int) ^ bs ≤ 2 ^ ba := by
+    exact_mod_cast Nat.pow_le_pow_right (by norm_num) h2
+  refine ⟨⟨?_, ?_⟩, ?_⟩ <;> linarith
+
 
 /-! ## Tie: the hand-written model uses the expressions of the current source (bridges, `Proofs/PixelTie.lean`) -/
 
